@@ -55,7 +55,13 @@ type Ctx struct {
 	key        []byte
 	known      map[string]int
 	discard    string
+	after      []func() error
 }
+
+// After registers an invariant that is evaluated once the check function has returned nil
+// (e.g. "the canaries of the object built at the top of the check are intact"); an error it
+// returns is the case's error.
+func (c *Ctx) After(f func() error) { c.after = append(c.after, f) }
 
 // Label adds a classification label to the case (histogram in evidence).
 func (c *Ctx) Label(s string) { c.labels = append(c.labels, s) }
@@ -281,7 +287,15 @@ func safeCheck[C any](f func(*Ctx, C) error, ctx *Ctx, c C) (err error) {
 			err = fmt.Errorf("panic: %v\n%s", x, trimStack(debug.Stack()))
 		}
 	}()
-	return f(ctx, c)
+	if err = f(ctx, c); err != nil {
+		return err
+	}
+	for _, a := range ctx.after {
+		if err = a(); err != nil {
+			return err
+		}
+	}
+	return nil
 }
 
 func trimStack(b []byte) string {
